@@ -89,3 +89,21 @@ func TestObjectAclGrantWithoutGranteeIsAnswered(t *testing.T) {
 	}
 	alive(t, g, "the object ACL without grantee")
 }
+
+// With an access log configured, a request that is refused before the authentication middleware ran (the URL decoder
+// refuses a malformed escape, a dot segment, a version id with a slash) reached the access logger without a start time:
+// the logger asserted ctx.Locals("startTime").(time.Time) on nil.
+func TestRefusedRequestIsLoggedNotFatal(t *testing.T) {
+	g := gwtest.Start(t, gwtest.Options{AccessLog: true})
+	g.MustStatus(g.Put(g.RootC, "/bkt", nil, nil), 200, "create bucket")
+	for _, target := range []string{"/bkt/%zz", "/bkt/../x", "/bkt/a?versionId=a/b", "bkt"} {
+		r := g.Do(gwtest.Req{Method: "GET", Target: target, NoAuth: true})
+		if r.Err != nil {
+			t.Fatalf("no answer to GET %s: %v (a handler panic kills the gateway)", target, r.Err)
+		}
+		if r.Status/100 != 4 {
+			t.Errorf("GET %s answered %s, want a 4xx error", target, r)
+		}
+	}
+	alive(t, g, "refused requests with the access log on")
+}
